@@ -16,9 +16,22 @@ def corr_failures(ctx, worlds, use_model=True):
         df = diff_outputs(w.ops, w.outs, mo)
         if df:
             i, msg = df
+            w.corr_failed = True
             out.append(Failure("corr", None, "op %d %s: %s" % (i, json.dumps(w.ops[i], ensure_ascii=False)[:400], msg[:800]),
                                {"ops": w.ops[:i + 1], "impl": w.outs[i]}))
     return out
+
+
+def distrust_known(worlds_and_fails):
+    """a known finding is a statement about the *pinned* code, and the model mirrors the pinned code: when the model no longer
+    agrees with the implementation on a case, a property failure in that very case is not explained by the known finding
+    (its signature is cleared: it is reported as the violation it is, with the case as the failing input)"""
+    for (w, fs) in worlds_and_fails:
+        if getattr(w, "corr_failed", False):
+            for f in fs:
+                if f.kind == "oracle" and f.sig is not None:
+                    f.desc += " [signature %s not accepted: model and implementation disagree on this very case]" % f.sig
+                    f.sig = None
 
 
 def batched(ctx, total, make_case, judge=None, batch=100, use_model=True):
@@ -43,9 +56,11 @@ def batched(ctx, total, make_case, judge=None, batch=100, use_model=True):
                                      {"traceback": tb, "seed": ctx.seed, "case_index": done + len(cases)}))
                 ctx.evaluations += 1
         done += n
+        cf = corr_failures(ctx, [w for (w, _) in cases], use_model)
+        distrust_known(cases)
         for (w, fs) in cases:
             fails.extend(fs)
-        fails.extend(corr_failures(ctx, [w for (w, _) in cases], use_model))
+        fails.extend(cf)
     return fails
 
 
